@@ -43,7 +43,7 @@ func init() {
 		c.Obligs = append(c.Obligs[:save], keep...)
 		c.Undecided = und
 		delete(c.RuleDesc, "C05.veto")
-		c.floor("C03.part", 4)
+		c.floor("C03.part", 3)
 	})
 }
 
@@ -57,6 +57,7 @@ func init() {
 		if a.ok {
 			c.rulesC04(a, c.lockAnalysis())
 			c.rulesC04dup()
+			c.rulesC04drop()
 		}
 	})
 	register("C05", propInfo{
